@@ -185,6 +185,7 @@ def phase_c(rep, tier, seed):
             v = {"class": "ROUNDTRIP" if r["status"] == "violation" else "ROUNDTRIP_HUNG",
                  "detail": "; ".join(r.get("problems") or [str(r.get("gen1"))])}
             what = (r.get("problems") or ["hung"])[0].split(":")[0].split("(")[0].strip()
+            what = " ".join(w for w in what.split() if not w.isdigit())[:60]
             rep.violation(f"ROUNDTRIP:{what}", {"engine": "c14-roundtrip", "case": c,
                                                "violation": v}, text=v["detail"])
     say(f"[C14/c] {len(cases)} provenance round trips: {dict(status)}")
